@@ -457,3 +457,69 @@ Proof.
   rewrite emit_disconnects_discs. rewrite rev_involutive, emit_connects_conns.
   fold c. fold j. fold new. reflexivity.
 Qed.
+
+(** ** The poller's hand-over as a whole
+
+    The height-based poller hands over one block per height above the
+    client's: after a reorganisation the first one is off the client's
+    branch (the reorg procedure runs up to its height), the others are
+    successors.  The stream is that of the evolution to the whole new branch. *)
+Lemma successors_connect t : forall rest best,
+  alinked t (m_hash best) (m_height best + 1) rest ->
+  on_blocks_with true t best (map bh rest) =
+  Some (conns (m_height best + 1) rest,
+        match list.last rest with
+        | None => best
+        | Some b => meta_of (m_height best + Z.of_nat (length rest)) b
+        end).
+Proof.
+  induction rest as [|b rest IH]; intros best Ha; [reflexivity|].
+  destruct Ha as [Hb Ha].
+  cbn [map on_blocks_with]. unfold on_block_with. rewrite Hb. cbn [p_prev p_time].
+  rewrite N.eqb_refl.
+  specialize (IH {| m_height := m_height best + 1; m_hash := bh b; m_time := bt b |}).
+  cbn [m_hash m_height] in IH. rewrite (IH Ha).
+  cbn [app conns]. apply f_equal. apply f_equal2; [reflexivity|].
+  destruct rest as [|b' rest']; cbn [list.last length].
+  - unfold meta_of; f_equal; try lia.
+  - change (list.last (b :: b' :: rest')) with (list.last (b' :: rest')).
+    destruct (list.last (b' :: rest')) eqn:E; [|apply last_None in E; discriminate].
+    unfold meta_of; f_equal; cbn [length]; try lia.
+Qed.
+
+Theorem poller_handover_emits t o os b1 nsame ns rest h base :
+  0 <= h - Z.of_nat (length os) ->
+  dlinked t (o :: os) h base ->
+  dlinked t ([b1] ++ nsame :: ns) (h + 1) base ->
+  differ os ns -> bh nsame <> bh o ->
+  alinked t (bh b1) (h + 2) rest ->
+  exists best,
+    on_blocks_with true t (meta_of h o) (map bh (b1 :: rest)) =
+    Some (discs h (o :: os) ++ conns (h - Z.of_nat (length os)) (rev (b1 :: nsame :: ns) ++ rest), best) /\
+    m_hash best = bh (match list.last rest with Some b => b | None => b1 end).
+Proof.
+  intros Hh Hold Hnew Hdiff Hne Hrest.
+  pose proof (reorg_emits t o os [b1] nsame ns h base Hh Hold) as Hr.
+  cbn [length new_tip app] in Hr. specialize (Hr Hnew Hdiff). cbv zeta in Hr.
+  assert (Hb1 : t !! bh b1 = Some {| p_prev := bh nsame; p_height := h + 1; p_time := bt b1 |}).
+  { destruct Hnew as [Hb _]. exact Hb. }
+  cbn [map on_blocks_with]. unfold on_block_with. rewrite Hb1. cbn [p_prev meta_of m_hash].
+  destruct (N.eqb_spec (bh nsame) (bh o)) as [E|_]; [congruence|].
+  change {| m_height := h; m_hash := bh o; m_time := bt o |} with (meta_of h o).
+  rewrite Hr.
+  pose proof (successors_connect t rest (meta_of (h + Z.of_nat 1) b1)) as Hs.
+  cbn [meta_of m_hash m_height] in Hs.
+  replace (h + Z.of_nat 1 + 1) with (h + 2) in Hs by lia.
+  unfold meta_of in Hs |- *. rewrite (Hs Hrest).
+  eexists. split.
+  - f_equal. f_equal. rewrite <- app_assoc. f_equal.
+    (* conns over the concatenation *)
+    assert (Hc : forall l1 l2 z, conns z (l1 ++ l2) = conns z l1 ++ conns (z + Z.of_nat (length l1)) l2).
+    { clear. induction l1 as [|x l1 IH]; intros l2 z; cbn [app conns length].
+      - rewrite Z.add_0_r. reflexivity.
+      - rewrite IH. do 2 f_equal. f_equal. lia. }
+    rewrite Hc. f_equal. f_equal.
+    assert (Hl : length os = length ns) by (apply differ_length; exact Hdiff).
+    rewrite rev_length. cbn [length app]. lia.
+  - destruct (list.last rest); reflexivity.
+Qed.
